@@ -886,3 +886,358 @@ Proof.
   intros Hwf Hon Hdac Hle Ht Hl.
   exact (ch2_expiry_core s _ _ v1 v m eq_refl eq_refl Hwf Hon Hdac Hle Ht Hl).
 Qed.
+
+(* ------------------------------------------------------------------------------------------------- *)
+(* C19 headline, channel 4 *)
+Lemma ns_len_trigger n :
+  nsLength (ns_trigger n) = (if nsLength n =? 0 then 64 else nsLength n) /\ nsLenEn (ns_trigger n) = nsLenEn n.
+Proof.
+  unfold ns_trigger.
+  set (n1 := set_nsEnabled (set_nsTriggered n true) true).
+  set (n2 := if nsLength n1 =? 0 then set_nsLength n1 64 else n1).
+  assert (H2 : nsLength n2 = (if nsLength n =? 0 then 64 else nsLength n) /\ nsLenEn n2 = nsLenEn n).
+  { unfold n2. change (nsLength n1) with (nsLength n). destruct (nsLength n =? 0); split; reflexivity. }
+  clearbody n2. psimpl. break_ifs; psimpl; exact H2.
+Qed.
+
+Lemma nr44_noise_len n v odd :
+  trig_bit v = true -> len_bit v = true -> nsLength n < 256 ->
+  let n' := nr44_noise n v odd in
+  nsLenEn n' = true /\ nsLength n' = trigger_length 64 (nsLength n) (nsLenEn n) odd /\ nsEnabled n' = nsDac n.
+Proof.
+  unfold trig_bit, len_bit. intros Ht Hl HL. cbv zeta. unfold nr44_noise. rewrite Ht, Hl.
+  set (n1 := ns_extra_len n true true odd).
+  assert (H1 : nsLength n1 = (if negb (nsLenEn n) && (0 <? nsLength n) && odd then nsLength n - 1 else nsLength n) /\
+               nsDac n1 = nsDac n).
+  { unfold n1, ns_extra_len. cbn [andb negb]. rewrite Bool.andb_true_r.
+    destruct (negb (nsLenEn n) && (0 <? nsLength n) && odd) eqn:E; psimpl; [|split; reflexivity].
+    rewrite Bool.andb_false_r. psimpl. split; [|reflexivity].
+    apply andb_prop in E. destruct E as [E _]. apply andb_prop in E. destruct E as [_ E]. apply sub8_pred; lia. }
+  destruct H1 as [H1 Hd].
+  set (n2 := ns_trigger n1).
+  assert (H2 : nsLength n2 = (if nsLength n1 =? 0 then 64 else nsLength n1) /\ nsEnabled n2 = nsDac n).
+  { unfold n2. destruct (ns_len_trigger n1) as [-> _]. split; [reflexivity|]. rewrite ns_en_trigger. exact Hd. }
+  destruct H2 as [H2 He].
+  psimpl. split; [reflexivity|].
+  rewrite ns_en_trig_len. split; [|exact He].
+  unfold trigger_length.
+  set (L1 := if negb (nsLenEn n) && (0 <? nsLength n) && odd then nsLength n - 1 else nsLength n) in *.
+  rewrite H1 in H2. set (L2 := if L1 =? 0 then 64 else L1) in *.
+  clearbody n2 L2. unfold ns_trig_len. cbn [andb].
+  destruct n2 as [len iv ei es sh wd dv le en dc vo tm et lf tr]. psimpl_in H2. psimpl. subst len.
+  destruct odd; cbn [andb]; [|rewrite Bool.andb_false_r; reflexivity].
+  rewrite Bool.andb_true_r.
+  destruct (L2 =? 64) eqn:E; psimpl; [|reflexivity].
+  apply N.eqb_eq in E. rewrite E. reflexivity.
+Qed.
+
+Lemma W41_effect s v1 :
+  let s1 := apu_bus_write s 0xFF20 v1 in
+  nsLength (ch4 s1) = 64 - v1 mod 64 /\ nsLenEn (ch4 s1) = nsLenEn (ch4 s) /\ nsDac (ch4 s1) = nsDac (ch4 s) /\
+  is_on s1 = is_on s /\ ticks s1 = ticks s /\ fseq s1 = fseq s.
+Proof.
+  cbv zeta. change (apu_bus_write s 0xFF20 v1) with (WriteNR41 s v1). unfold WriteNR41, is_on.
+  psimpl. change 0x3f with (N.ones 6). rewrite N.land_ones. change (2 ^ 6) with 64.
+  assert (H : v1 mod 64 < 64) by (apply N.mod_lt; discriminate).
+  repeat split; unfold sub8; clear - H; lia.
+Qed.
+
+Lemma ch4_expiry_core (s s1 s0 : apu) v1 v m :
+  s1 = apu_bus_write s 0xFF20 v1 -> s0 = apu_bus_write s1 0xFF23 v ->
+  clk_wf s -> is_on s = true -> nsDac (ch4 s) = true -> nsLenEn (ch4 s) = false ->
+  trig_bit v = true -> len_bit v = true ->
+  let L := trigger_length 64 (64 - v1 mod 64) false (odd_seq s) in
+  0 < L /\ en4 s0 = true /\
+  en4 (apu_run s0 (repeat OCycle m)) = (lc_count (phase s) (fseq s) (4 * N.of_nat m) <? L).
+Proof.
+  intros E1 E0 Hwf Hon Hdac Hle Ht Hl L.
+  destruct (W41_effect s v1) as (A1 & A2 & A3 & A4 & A5 & A6). cbv zeta in A1, A2, A3, A4, A5, A6.
+  rewrite <- E1 in A1, A2, A3, A4, A5, A6.
+  assert (Hon1 : ctOn (ctl s1) = true) by (unfold is_on in A4; rewrite A4; exact Hon).
+  assert (Hodd : odd_seq s1 = odd_seq s) by (unfold odd_seq; rewrite A6; reflexivity).
+  assert (HL1 : nsLength (ch4 s1) < 256) by (rewrite A1; clear; lia).
+  destruct (nr44_noise_len (ch4 s1) v (odd_seq s1) Ht Hl HL1) as (B1 & B2 & B3). cbv zeta in B1, B2, B3.
+  assert (Hs0 : s0 = set_ch4 s1 (nr44_noise (ch4 s1) v (odd_seq s1))).
+  { rewrite E0. change (apu_bus_write s1 0xFF23 v) with (WriteNR44 s1 v). exact (WriteNR44_on s1 v Hon1). }
+  generalize dependent (nr44_noise (ch4 s1) v (odd_seq s1)). intros c' B1 B2 B3 Hs0.
+  rewrite A1, A2, Hle, Hodd in B2. fold L in B2. rewrite A3, Hdac in B3.
+  assert (Hpos : 0 < L /\ L <= 64).
+  { unfold L. apply trigger_length_bounds. apply N.mod_lt. discriminate. }
+  assert (Hwf0 : clk_wf s0) by (rewrite E0; apply clk_wf_write; rewrite E1; apply clk_wf_write; exact Hwf).
+  assert (Hc2 : ch4 s0 = c') by (rewrite Hs0; reflexivity).
+  assert (Hinv : len4_inv s0).
+  { unfold len4_inv. rewrite Hc2, B1, B2. split; [exact Hwf0|]. split; [reflexivity|]. clear - Hpos. lia. }
+  assert (Hph : ticks s0 = ticks s /\ fseq s0 = fseq s).
+  { destruct (clk_write s1 0xFF23 v ltac:(discriminate)) as [T F]. rewrite <- E0 in T, F.
+    rewrite T, F, A5, A6. split; reflexivity. }
+  destruct Hph as [Hp Hf].
+  assert (Hp' : phase s0 = phase s) by (unfold phase, norm_ticks; rewrite Hp; reflexivity).
+  split; [apply Hpos|].
+  assert (He0 : en4 s0 = true) by (unfold en4; rewrite Hc2; exact B3).
+  split; [exact He0|].
+  rewrite run_cycles.
+  destruct (len4_run (cycles_uops m) s0 Hinv) as (_ & _ & _ & E4). cbv zeta in E4.
+  rewrite n_ticks_cycles, Hp', Hf in E4. unfold en4 in *. rewrite E4, Hc2, B2, B3. cbn [andb].
+  assert (E : (L =? 0) = false) by (clear - Hpos; lia). rewrite E. reflexivity.
+Qed.
+
+Theorem ch4_length_expiry s v1 v m :
+  clk_wf s -> is_on s = true -> nsDac (ch4 s) = true -> nsLenEn (ch4 s) = false ->
+  trig_bit v = true -> len_bit v = true ->
+  let s0 := apu_bus_write (apu_bus_write s 0xFF20 v1) 0xFF23 v in
+  let L := trigger_length 64 (64 - v1 mod 64) false (odd_seq s) in
+  0 < L /\ en4 s0 = true /\
+  en4 (apu_run s0 (repeat OCycle m)) = (lc_count (phase s) (fseq s) (4 * N.of_nat m) <? L).
+Proof.
+  intros Hwf Hon Hdac Hle Ht Hl.
+  exact (ch4_expiry_core s _ _ v1 v m eq_refl eq_refl Hwf Hon Hdac Hle Ht Hl).
+Qed.
+
+(* ------------------------------------------------------------------------------------------------- *)
+(* C19 headline, channel 3 (256 length steps) *)
+Lemma wv_len_trigger w :
+  wvLength (wv_trigger w) = (if wvLength w =? 0 then 256 else wvLength w) /\ wvLenEn (wv_trigger w) = wvLenEn w.
+Proof.
+  unfold wv_trigger.
+  set (w1 := if wvEnabled w then _ else _).
+  assert (H1 : wvLength w1 = wvLength w /\ wvLenEn w1 = wvLenEn w).
+  { unfold w1, wv_corrupt. destruct (wvEnabled w); [destruct (wvTimer w =? 0)|]; split; reflexivity. }
+  clearbody w1. destruct H1 as [H1 H1'].
+  set (w2 := set_wvEnabled w1 true).
+  set (w3 := if wvLength w2 =? 0 then set_wvLength w2 256 else w2).
+  assert (H3 : wvLength w3 = (if wvLength w =? 0 then 256 else wvLength w) /\ wvLenEn w3 = wvLenEn w).
+  { unfold w3. change (wvLength w2) with (wvLength w1). rewrite H1. destruct (wvLength w =? 0); split; try reflexivity; assumption. }
+  clearbody w3. psimpl. break_ifs; psimpl; exact H3.
+Qed.
+
+Lemma nr34_wave_len w v odd :
+  trig_bit v = true -> len_bit v = true -> wvLength w < 65536 ->
+  let w' := nr34_wave w v odd in
+  wvLenEn w' = true /\ wvLength w' = trigger_length 256 (wvLength w) (wvLenEn w) odd /\ wvEnabled w' = wvDac w.
+Proof.
+  unfold trig_bit, len_bit. intros Ht Hl HL. cbv zeta. unfold nr34_wave. rewrite Ht, Hl.
+  set (w0 := set_wvFreq w _).
+  set (w1 := wv_extra_len w0 true true odd).
+  assert (H1 : wvLength w1 = (if negb (wvLenEn w) && (0 <? wvLength w) && odd then wvLength w - 1 else wvLength w) /\
+               wvDac w1 = wvDac w).
+  { unfold w1, wv_extra_len, w0. psimpl. cbn [andb negb]. rewrite Bool.andb_true_r.
+    destruct (negb (wvLenEn w) && (0 <? wvLength w) && odd) eqn:E; psimpl; [|split; reflexivity].
+    rewrite Bool.andb_false_r. psimpl. split; [|reflexivity].
+    apply andb_prop in E. destruct E as [E _]. apply andb_prop in E. destruct E as [_ E]. apply sub16_pred; lia. }
+  destruct H1 as [H1 Hd].
+  set (w2 := wv_trigger w1).
+  assert (H2 : wvLength w2 = (if wvLength w1 =? 0 then 256 else wvLength w1) /\ wvEnabled w2 = wvDac w).
+  { unfold w2. destruct (wv_len_trigger w1) as [-> _]. split; [reflexivity|]. rewrite wv_en_trigger. exact Hd. }
+  destruct H2 as [H2 He].
+  psimpl. split; [reflexivity|].
+  rewrite wv_en_trig_len. split; [|exact He].
+  unfold trigger_length.
+  set (L1 := if negb (wvLenEn w) && (0 <? wvLength w) && odd then wvLength w - 1 else wvLength w) in *.
+  rewrite H1 in H2. set (L2 := if L1 =? 0 then 256 else L1) in *.
+  clearbody w2 L2. unfold wv_trig_len. cbn [andb].
+  destruct w2 as [len ol fr le rm en dc tm os po la sb st tr]. psimpl_in H2. psimpl. subst len.
+  destruct odd; cbn [andb]; [|rewrite Bool.andb_false_r; reflexivity].
+  rewrite Bool.andb_true_r.
+  destruct (L2 =? 256) eqn:E; psimpl; [|reflexivity].
+  apply N.eqb_eq in E. rewrite E. reflexivity.
+Qed.
+
+Lemma trigger_length_bounds3 t odd :
+  t < 256 -> 0 < trigger_length 256 (256 - t) false odd /\ trigger_length 256 (256 - t) false odd <= 256.
+Proof.
+  intros Ht. unfold trigger_length. cbn [negb andb].
+  assert (E0 : (0 <? 256 - t) = true) by lia. rewrite E0. cbn [andb].
+  destruct odd; cbn [andb].
+  - destruct (256 - t - 1 =? 0) eqn:E1; [cbn; lia|]. destruct (256 - t - 1 =? 256) eqn:E2; lia.
+  - assert (E1 : (256 - t =? 0) = false) by lia. rewrite E1. lia.
+Qed.
+
+Lemma W31_effect s v1 :
+  v1 < 256 ->
+  let s1 := apu_bus_write s 0xFF1B v1 in
+  wvLength (ch3 s1) = 256 - v1 /\ wvLenEn (ch3 s1) = wvLenEn (ch3 s) /\ wvDac (ch3 s1) = wvDac (ch3 s) /\
+  is_on s1 = is_on s /\ ticks s1 = ticks s /\ fseq s1 = fseq s.
+Proof.
+  intros Hv. cbv zeta. change (apu_bus_write s 0xFF1B v1) with (WriteNR31 s v1). unfold WriteNR31, is_on.
+  psimpl. repeat split; unfold sub16; clear - Hv; lia.
+Qed.
+
+Lemma ch3_expiry_core (s s1 s0 : apu) v1 v m :
+  s1 = apu_bus_write s 0xFF1B v1 -> s0 = apu_bus_write s1 0xFF1E v -> v1 < 256 ->
+  clk_wf s -> is_on s = true -> wvDac (ch3 s) = true -> wvLenEn (ch3 s) = false ->
+  trig_bit v = true -> len_bit v = true ->
+  let L := trigger_length 256 (256 - v1) false (odd_seq s) in
+  0 < L /\ en3 s0 = true /\
+  en3 (apu_run s0 (repeat OCycle m)) = (lc_count (phase s) (fseq s) (4 * N.of_nat m) <? L).
+Proof.
+  intros E1 E0 Hv1 Hwf Hon Hdac Hle Ht Hl L.
+  destruct (W31_effect s v1 Hv1) as (A1 & A2 & A3 & A4 & A5 & A6). cbv zeta in A1, A2, A3, A4, A5, A6.
+  rewrite <- E1 in A1, A2, A3, A4, A5, A6.
+  assert (Hon1 : ctOn (ctl s1) = true) by (unfold is_on in A4; rewrite A4; exact Hon).
+  assert (Hodd : odd_seq s1 = odd_seq s) by (unfold odd_seq; rewrite A6; reflexivity).
+  assert (HL1 : wvLength (ch3 s1) < 65536) by (rewrite A1; clear; lia).
+  destruct (nr34_wave_len (ch3 s1) v (odd_seq s1) Ht Hl HL1) as (B1 & B2 & B3). cbv zeta in B1, B2, B3.
+  assert (Hs0 : s0 = set_ch3 s1 (nr34_wave (ch3 s1) v (odd_seq s1))).
+  { rewrite E0. change (apu_bus_write s1 0xFF1E v) with (WriteNR34 s1 v). exact (WriteNR34_on s1 v Hon1). }
+  generalize dependent (nr34_wave (ch3 s1) v (odd_seq s1)). intros c' B1 B2 B3 Hs0.
+  rewrite A1, A2, Hle, Hodd in B2. fold L in B2. rewrite A3, Hdac in B3.
+  assert (Hpos : 0 < L /\ L <= 256).
+  { unfold L. apply trigger_length_bounds3. exact Hv1. }
+  assert (Hwf0 : clk_wf s0) by (rewrite E0; apply clk_wf_write; rewrite E1; apply clk_wf_write; exact Hwf).
+  assert (Hc2 : ch3 s0 = c') by (rewrite Hs0; reflexivity).
+  assert (Hinv : len3_inv s0).
+  { unfold len3_inv. rewrite Hc2, B1, B2. split; [exact Hwf0|]. split; [reflexivity|]. clear - Hpos. lia. }
+  assert (Hph : ticks s0 = ticks s /\ fseq s0 = fseq s).
+  { destruct (clk_write s1 0xFF1E v ltac:(discriminate)) as [T F]. rewrite <- E0 in T, F.
+    rewrite T, F, A5, A6. split; reflexivity. }
+  destruct Hph as [Hp Hf].
+  assert (Hp' : phase s0 = phase s) by (unfold phase, norm_ticks; rewrite Hp; reflexivity).
+  split; [apply Hpos|].
+  assert (He0 : en3 s0 = true) by (unfold en3; rewrite Hc2; exact B3).
+  split; [exact He0|].
+  rewrite run_cycles.
+  destruct (len3_run (cycles_uops m) s0 Hinv) as (_ & _ & _ & E4). cbv zeta in E4.
+  rewrite n_ticks_cycles, Hp', Hf in E4. unfold en3 in *. rewrite E4, Hc2, B2, B3. cbn [andb].
+  assert (E : (L =? 0) = false) by (clear - Hpos; lia). rewrite E. reflexivity.
+Qed.
+
+Theorem ch3_length_expiry s v1 v m :
+  v1 < 256 -> clk_wf s -> is_on s = true -> wvDac (ch3 s) = true -> wvLenEn (ch3 s) = false ->
+  trig_bit v = true -> len_bit v = true ->
+  let s0 := apu_bus_write (apu_bus_write s 0xFF1B v1) 0xFF1E v in
+  let L := trigger_length 256 (256 - v1) false (odd_seq s) in
+  0 < L /\ en3 s0 = true /\
+  en3 (apu_run s0 (repeat OCycle m)) = (lc_count (phase s) (fseq s) (4 * N.of_nat m) <? L).
+Proof.
+  intros Hv1 Hwf Hon Hdac Hle Ht Hl.
+  exact (ch3_expiry_core s _ _ v1 v m eq_refl eq_refl Hv1 Hwf Hon Hdac Hle Ht Hl).
+Qed.
+
+(* ------------------------------------------------------------------------------------------------- *)
+(* C19 headline, channel 1 with the sweep unit idle (NR10 period and shift 0) *)
+Definition nr14_pair (c : square) (w : sweep) (v : N) (odd : bool) : square * sweep :=
+  let c := set_sqFreq c (N.lor (N.land (sqFreq c) 0x00ff) (N.shiftl (N.land v 7) 8)) in
+  let trigger := 0 <? N.land (N.shiftr v 7) 1 in
+  let lenEn := 0 <? N.land (N.shiftr v 6) 1 in
+  let c := sq_extra_len c lenEn trigger odd in
+  let cw := if trigger then (let cw := ch1_trigger c w in (sq_trig_len (fst cw) lenEn odd, snd cw)) else (c, w) in
+  (set_sqLenEn (fst cw) lenEn, snd cw).
+
+Lemma WriteNR14_on s v :
+  ctOn (ctl s) = true ->
+  WriteNR14 s v = set_sw1 (set_ch1 s (fst (nr14_pair (ch1 s) (sw1 s) v (odd_seq s))))
+                          (snd (nr14_pair (ch1 s) (sw1 s) v (odd_seq s))).
+Proof. intros H. unfold WriteNR14, nr14_pair. rewrite H. reflexivity. Qed.
+
+Lemma ch1_trigger_idle c w :
+  swShift w = 0 -> swPeriod w = 0 ->
+  fst (ch1_trigger c w) = sq_dac_check (sq_trigger_common c) /\ swEnabled (snd (ch1_trigger c w)) = false.
+Proof.
+  intros Hs Hp. unfold ch1_trigger. psimpl. rewrite Hs, Hp. cbn [N.ltb N.compare orb fst snd]. psimpl.
+  split; reflexivity.
+Qed.
+
+Lemma nr14_pair_len c w v odd :
+  trig_bit v = true -> len_bit v = true -> sqLength c < 256 -> swShift w = 0 -> swPeriod w = 0 ->
+  let cw := nr14_pair c w v odd in
+  sqLenEn (fst cw) = true /\ sqLength (fst cw) = trigger_length 64 (sqLength c) (sqLenEn c) odd /\
+  sqEnabled (fst cw) = sqDac c /\ swEnabled (snd cw) = false.
+Proof.
+  unfold trig_bit, len_bit. intros Ht Hl HL Hs Hp. cbv zeta. unfold nr14_pair. rewrite Ht, Hl. cbn [fst snd].
+  set (c0 := set_sqFreq c _).
+  set (c1 := sq_extra_len c0 true true odd).
+  assert (H1 : sqLength c1 = (if negb (sqLenEn c) && (0 <? sqLength c) && odd then sqLength c - 1 else sqLength c) /\
+               sqDac c1 = sqDac c).
+  { unfold c1, sq_extra_len, c0. psimpl. cbn [andb negb]. rewrite Bool.andb_true_r.
+    destruct (negb (sqLenEn c) && (0 <? sqLength c) && odd) eqn:E; psimpl; [|split; reflexivity].
+    rewrite Bool.andb_false_r. psimpl. split; [|reflexivity].
+    apply andb_prop in E. destruct E as [E _]. apply andb_prop in E. destruct E as [_ E]. apply sub8_pred; lia. }
+  destruct H1 as [H1 Hd].
+  destruct (ch1_trigger_idle c1 w Hs Hp) as [T1 T2]. rewrite T1, T2. fold (ch2_trigger c1).
+  set (c2 := ch2_trigger c1).
+  assert (H2 : sqLength c2 = (if sqLength c1 =? 0 then 64 else sqLength c1) /\ sqEnabled c2 = sqDac c).
+  { unfold c2, ch2_trigger. destruct (sq_len_dac_check (sq_trigger_common c1)) as [-> _].
+    destruct (sq_len_trigger_common c1) as [-> _]. split; [reflexivity|].
+    fold (ch2_trigger c1). rewrite sq_en_ch2_trigger. exact Hd. }
+  destruct H2 as [H2 He].
+  psimpl. split; [reflexivity|]. split; [|split; [rewrite sq_en_trig_len; exact He|reflexivity]].
+  unfold trigger_length.
+  set (L1 := if negb (sqLenEn c) && (0 <? sqLength c) && odd then sqLength c - 1 else sqLength c) in *.
+  rewrite H1 in H2. set (L2 := if L1 =? 0 then 64 else L1) in *.
+  clearbody c2 L2. unfold sq_trig_len. cbn [andb].
+  destruct c2 as [d len iv ei es fr le en dc di vo tm et tr]. psimpl_in H2. psimpl. subst len.
+  destruct odd; cbn [andb]; [|rewrite Bool.andb_false_r; reflexivity].
+  rewrite Bool.andb_true_r.
+  destruct (L2 =? 64) eqn:E; psimpl; [|reflexivity].
+  apply N.eqb_eq in E. rewrite E. reflexivity.
+Qed.
+
+Lemma W11_effect s v1 :
+  let s1 := apu_bus_write s 0xFF11 v1 in
+  sqLength (ch1 s1) = 64 - v1 mod 64 /\ sqLenEn (ch1 s1) = sqLenEn (ch1 s) /\ sqDac (ch1 s1) = sqDac (ch1 s) /\
+  is_on s1 = is_on s /\ ticks s1 = ticks s /\ fseq s1 = fseq s /\ sw1 s1 = sw1 s.
+Proof.
+  cbv zeta. change (apu_bus_write s 0xFF11 v1) with (WriteNR11 s v1). unfold WriteNR11, is_on.
+  psimpl. change 0x3f with (N.ones 6). rewrite N.land_ones. change (2 ^ 6) with 64.
+  assert (H : v1 mod 64 < 64) by (apply N.mod_lt; discriminate).
+  destruct (ctOn (ctl s)); psimpl; repeat split; unfold sub8; clear - H; lia.
+Qed.
+
+Lemma ch1_expiry_core (s s1 s0 : apu) v1 v m :
+  s1 = apu_bus_write s 0xFF11 v1 -> s0 = apu_bus_write s1 0xFF14 v ->
+  clk_wf s -> is_on s = true -> sqDac (ch1 s) = true -> sqLenEn (ch1 s) = false ->
+  swShift (sw1 s) = 0 -> swPeriod (sw1 s) = 0 ->
+  trig_bit v = true -> len_bit v = true ->
+  let L := trigger_length 64 (64 - v1 mod 64) false (odd_seq s) in
+  0 < L /\ en1 s0 = true /\
+  en1 (apu_run s0 (repeat OCycle m)) = (lc_count (phase s) (fseq s) (4 * N.of_nat m) <? L).
+Proof.
+  intros E1 E0 Hwf Hon Hdac Hle Hss Hsp Ht Hl L.
+  destruct (W11_effect s v1) as (A1 & A2 & A3 & A4 & A5 & A6 & A7). cbv zeta in A1, A2, A3, A4, A5, A6, A7.
+  rewrite <- E1 in A1, A2, A3, A4, A5, A6, A7.
+  assert (Hon1 : ctOn (ctl s1) = true) by (unfold is_on in A4; rewrite A4; exact Hon).
+  assert (Hodd : odd_seq s1 = odd_seq s) by (unfold odd_seq; rewrite A6; reflexivity).
+  assert (HL1 : sqLength (ch1 s1) < 256) by (rewrite A1; clear; lia).
+  assert (Hss1 : swShift (sw1 s1) = 0) by (rewrite A7; exact Hss).
+  assert (Hsp1 : swPeriod (sw1 s1) = 0) by (rewrite A7; exact Hsp).
+  destruct (nr14_pair_len (ch1 s1) (sw1 s1) v (odd_seq s1) Ht Hl HL1 Hss1 Hsp1) as (B1 & B2 & B3 & B4).
+  cbv zeta in B1, B2, B3, B4.
+  assert (Hs0 : s0 = set_sw1 (set_ch1 s1 (fst (nr14_pair (ch1 s1) (sw1 s1) v (odd_seq s1))))
+                             (snd (nr14_pair (ch1 s1) (sw1 s1) v (odd_seq s1)))).
+  { rewrite E0. change (apu_bus_write s1 0xFF14 v) with (WriteNR14 s1 v). exact (WriteNR14_on s1 v Hon1). }
+  generalize dependent (nr14_pair (ch1 s1) (sw1 s1) v (odd_seq s1)). intros cw B1 B2 B3 B4 Hs0.
+  rewrite A1, A2, Hle, Hodd in B2. fold L in B2. rewrite A3, Hdac in B3.
+  assert (Hpos : 0 < L /\ L <= 64).
+  { unfold L. apply trigger_length_bounds. apply N.mod_lt. discriminate. }
+  assert (Hwf0 : clk_wf s0) by (rewrite E0; apply clk_wf_write; rewrite E1; apply clk_wf_write; exact Hwf).
+  assert (Hc2 : ch1 s0 = fst cw) by (rewrite Hs0; reflexivity).
+  assert (Hw2 : sw1 s0 = snd cw) by (rewrite Hs0; reflexivity).
+  assert (Hinv : len1_inv s0).
+  { unfold len1_inv. rewrite Hc2, Hw2, B1, B2, B4. split; [exact Hwf0|]. split; [reflexivity|].
+    split; [clear - Hpos; lia|reflexivity]. }
+  assert (Hph : ticks s0 = ticks s /\ fseq s0 = fseq s).
+  { destruct (clk_write s1 0xFF14 v ltac:(discriminate)) as [T F]. rewrite <- E0 in T, F.
+    rewrite T, F, A5, A6. split; reflexivity. }
+  destruct Hph as [Hp Hf].
+  assert (Hp' : phase s0 = phase s) by (unfold phase, norm_ticks; rewrite Hp; reflexivity).
+  split; [apply Hpos|].
+  assert (He0 : en1 s0 = true) by (unfold en1; rewrite Hc2; exact B3).
+  split; [exact He0|].
+  rewrite run_cycles.
+  destruct (len1_run (cycles_uops m) s0 Hinv) as (_ & _ & _ & E4). cbv zeta in E4.
+  rewrite n_ticks_cycles, Hp', Hf in E4. unfold en1 in *. rewrite E4, Hc2, B2, B3. cbn [andb].
+  assert (E : (L =? 0) = false) by (clear - Hpos; lia). rewrite E. reflexivity.
+Qed.
+
+Theorem ch1_length_expiry s v1 v m :
+  clk_wf s -> is_on s = true -> sqDac (ch1 s) = true -> sqLenEn (ch1 s) = false ->
+  swShift (sw1 s) = 0 -> swPeriod (sw1 s) = 0 ->
+  trig_bit v = true -> len_bit v = true ->
+  let s0 := apu_bus_write (apu_bus_write s 0xFF11 v1) 0xFF14 v in
+  let L := trigger_length 64 (64 - v1 mod 64) false (odd_seq s) in
+  0 < L /\ en1 s0 = true /\
+  en1 (apu_run s0 (repeat OCycle m)) = (lc_count (phase s) (fseq s) (4 * N.of_nat m) <? L).
+Proof.
+  intros Hwf Hon Hdac Hle Hss Hsp Ht Hl.
+  exact (ch1_expiry_core s _ _ v1 v m eq_refl eq_refl Hwf Hon Hdac Hle Hss Hsp Ht Hl).
+Qed.
